@@ -4,6 +4,8 @@ One definition, two renderings: this file is (a) inlined symbolically by pyvc wh
 clause mentions a function defined here, and (b) imported as ordinary Python by replay scripts.
 Keep every function loop-free and within the pyvc subset.
 """
+import datetime  # spec clauses name datetime.timezone.utc
+
 
 # ---------------------------------------------------------------------------------------------
 # XSD 1.1 Part 2, proleptic Gregorian calendar (section 3.3.7-3.3.9, appendix E)
@@ -513,6 +515,10 @@ def comp_filter_condition():
 
 def comp_filter_count():
     raise NotImplementedError("comp_filter_count() is a symbolic-only builtin")
+
+
+def call_recv(name):
+    raise NotImplementedError("call_recv() is a symbolic-only builtin")
 
 
 def call_result(name, nth=None):
